@@ -50,6 +50,10 @@ pub struct Run {
     pub stdout: Vec<u8>,
     pub stderr: Vec<u8>,
     pub timed_out: bool,
+    /// the process was found blocked for good: its only thread waiting on a futex (a lock) that no
+    /// other thread exists to release, using no CPU time - decided from the process state, not
+    /// from a time limit - and was killed
+    pub deadlocked: bool,
 }
 
 impl Run {
@@ -68,7 +72,7 @@ impl Run {
             "exit {:?} signal {:?}{} stdout {:?} stderr {:?}",
             self.code,
             self.signal,
-            if self.timed_out { " TIMED OUT" } else { "" },
+            if self.deadlocked { " DEADLOCKED" } else if self.timed_out { " TIMED OUT" } else { "" },
             String::from_utf8_lossy(&self.stdout).chars().take(300).collect::<String>(),
             String::from_utf8_lossy(&self.stderr).chars().take(400).collect::<String>()
         )
@@ -79,17 +83,24 @@ impl Run {
 /// (infrastructure only: a timeout is reported as such, never as a verdict by itself).
 pub fn lace(args: &[&str], cwd: &Path, stdin: &[u8], release: bool, limit_s: u64) -> Run {
     use std::os::unix::process::ExitStatusExt;
-    let mut child = Command::new(lace_bin(release))
-        .args(args)
+    use std::os::unix::process::CommandExt;
+    let mut cmd = Command::new(lace_bin(release));
+    cmd.args(args)
         .current_dir(cwd)
         .env("NO_COLOR", "1")
         .env_remove("CLICOLOR_FORCE")
         .env("RUST_BACKTRACE", "0")
         .stdin(Stdio::piped())
         .stdout(Stdio::piped())
-        .stderr(Stdio::piped())
-        .spawn()
-        .expect("spawn lace");
+        .stderr(Stdio::piped());
+    unsafe {
+        // the child must not outlive a worker that is killed or gives up
+        cmd.pre_exec(|| {
+            libc::prctl(libc::PR_SET_PDEATHSIG, libc::SIGKILL);
+            Ok(())
+        });
+    }
+    let mut child = cmd.spawn().expect("spawn lace");
     {
         let mut si = child.stdin.take().unwrap();
         let _ = si.write_all(stdin);
@@ -99,8 +110,13 @@ pub fn lace(args: &[&str], cwd: &Path, stdin: &[u8], release: bool, limit_s: u64
     let done2 = done.clone();
     let timed = std::sync::Arc::new(std::sync::atomic::AtomicBool::new(false));
     let timed2 = timed.clone();
+    let dead = std::sync::Arc::new(std::sync::atomic::AtomicBool::new(false));
+    let dead2 = dead.clone();
     let guard = std::thread::spawn(move || {
         let t0 = std::time::Instant::now();
+        let mut blocked_samples = 0u32;
+        let mut last_cpu = u64::MAX;
+        let mut next_probe = 1500u128;
         while !done2.load(Ordering::SeqCst) {
             if t0.elapsed().as_secs() >= limit_s {
                 timed2.store(true, Ordering::SeqCst);
@@ -108,6 +124,27 @@ pub fn lace(args: &[&str], cwd: &Path, stdin: &[u8], release: bool, limit_s: u64
                     libc::kill(pid as i32, libc::SIGKILL);
                 }
                 return;
+            }
+            if t0.elapsed().as_millis() >= next_probe {
+                next_probe += 400;
+                match blocked_on_futex(pid) {
+                    Some(cpu) if cpu == last_cpu => blocked_samples += 1,
+                    Some(cpu) => {
+                        last_cpu = cpu;
+                        blocked_samples = 1;
+                    }
+                    None => {
+                        blocked_samples = 0;
+                        last_cpu = u64::MAX;
+                    }
+                }
+                if blocked_samples >= 4 {
+                    dead2.store(true, Ordering::SeqCst);
+                    unsafe {
+                        libc::kill(pid as i32, libc::SIGKILL);
+                    }
+                    return;
+                }
             }
             std::thread::sleep(std::time::Duration::from_millis(20));
         }
@@ -120,8 +157,31 @@ pub fn lace(args: &[&str], cwd: &Path, stdin: &[u8], release: bool, limit_s: u64
         signal: out.status.signal(),
         stdout: out.stdout,
         stderr: out.stderr,
-        timed_out: timed.load(Ordering::SeqCst),
+        timed_out: timed.load(Ordering::SeqCst) && !dead.load(Ordering::SeqCst),
+        deadlocked: dead.load(Ordering::SeqCst),
     }
+}
+
+/// `Some(cpu ticks used so far)` when process `pid` has exactly one thread and that thread sits in
+/// the futex system call (x86-64 number 202): it waits for a lock or condition that only another
+/// thread of the same process could signal, and there is none.
+fn blocked_on_futex(pid: u32) -> Option<u64> {
+    let status = std::fs::read_to_string(format!("/proc/{pid}/status")).ok()?;
+    let threads: u32 = status.lines().find_map(|l| l.strip_prefix("Threads:"))?.trim().parse().ok()?;
+    if threads != 1 {
+        return None;
+    }
+    let syscall = std::fs::read_to_string(format!("/proc/{pid}/syscall")).ok()?;
+    if syscall.split_whitespace().next()? != "202" {
+        return None;
+    }
+    let stat = std::fs::read_to_string(format!("/proc/{pid}/stat")).ok()?;
+    let after = stat.rsplit_once(')')?.1;
+    let f: Vec<&str> = after.split_whitespace().collect();
+    // fields after the command name: state is f[0]; utime and stime are f[11], f[12]
+    let utime: u64 = f.get(11)?.parse().ok()?;
+    let stime: u64 = f.get(12)?.parse().ok()?;
+    Some(utime + stime)
 }
 
 /// Run `lace <args>` with a pseudo-terminal as standard input (and controlling terminal) and type
@@ -168,6 +228,7 @@ pub fn lace_tty_env(args: &[&str], cwd: &Path, keys: &[Vec<u8>], release: bool, 
             // own session with the pty as controlling terminal, so that /dev/tty is the pty too
             libc::setsid();
             libc::ioctl(0, libc::TIOCSCTTY, 0);
+            libc::prctl(libc::PR_SET_PDEATHSIG, libc::SIGKILL);
             Ok(())
         });
     }
@@ -252,7 +313,7 @@ pub fn lace_tty_env(args: &[&str], cwd: &Path, keys: &[Vec<u8>], release: bool, 
     }
     let stdout = t_out.join().unwrap_or_default();
     let stderr = t_err.join().unwrap_or_default();
-    (Run { code: st.code(), signal: st.signal(), stdout, stderr, timed_out }, consumed)
+    (Run { code: st.code(), signal: st.signal(), stdout, stderr, timed_out, deadlocked: false }, consumed)
 }
 
 /// File stems for the process-level checks: what the tool does must not depend on how a file is
